@@ -12,7 +12,9 @@
      into (`decEncHeader_tag`, `decSigHeader_tag`) — by an invariant of `structArr`;
   D. transplants: a receiver that released anything or accepted, on ANY byte
      string, read header bytes different from every canonical header announcing
-     another mode / a refused version.
+     another mode / a refused version; and the other way round: behind canonical
+     header bytes of another mode / a refused version NOTHING is accepted, whatever
+     packets follow — exact refusal, nothing released, no key object touched.
 
   Core Lean only.
 -/
@@ -385,11 +387,10 @@ theorem decrypt_no_transplant_bytes (P : Prims) (valid : Validator) (kr : Keyrin
     (hread : Front.readEnc msg' = .ok (.ok hb' h', ps)) (r : Decrypt.Result)
     (hopen : Decrypt.openBytes P valid kr msg' = .ok r) (hacc : r.released ≠ [] ∨ r.err = none)
     (hother : m ≠ mtEncryption ∨ valid ver = false) :
-    hb' ≠ hb ∧ (P.hash hb' ≠ P.hash hb ∨ (hb' ≠ hb ∧ P.hash hb' = P.hash hb)) := by
+    hb' ≠ hb := by
   rw [dec_openBytes_of_read hread] at hopen
   cases hopen
   obtain ⟨_, hv, ht⟩ := enc_gate_released P valid kr hb' h' ps hacc
-  apply ne_hash_or_collision
   intro e
   subst e
   have htag := frontEncHeader_tag hb' m ver hhon h' (readEnc_header msg' hb' h' ps hread)
@@ -404,11 +405,10 @@ theorem signcrypt_no_transplant_bytes (P : Prims) (kr : Keyring) (res : Signcryp
     (hread : Front.readSigncrypt msg' = .ok (.ok hb' h', ps)) (r : Signcrypt.Result)
     (hopen : Signcrypt.openBytes P kr res msg' = .ok r) (hacc : r.released ≠ [] ∨ r.err = none)
     (hother : m ≠ mtSigncryption ∨ ver.major ≠ 2) :
-    hb' ≠ hb ∧ (P.hash hb' ≠ P.hash hb ∨ (hb' ≠ hb ∧ P.hash hb' = P.hash hb)) := by
+    hb' ≠ hb := by
   rw [sc_openBytes_of_read hread] at hopen
   cases hopen
   obtain ⟨_, hv, ht⟩ := sc_gate_released P kr res hb' h' ps hacc
-  apply ne_hash_or_collision
   intro e
   subst e
   have htag := frontEncHeader_tag hb' m ver hhon h' (readSigncrypt_header msg' hb' h' ps hread)
@@ -432,11 +432,10 @@ theorem verify_no_transplant_bytes (P : Prims) (valid : Validator) (kr : Keyring
     (hread : Front.readSig msg' = .ok (.ok hb' h', ps)) (r : Sign.Result)
     (hopen : Sign.verifyBytes P valid kr msg' = .ok r) (hacc : r.released ≠ [] ∨ r.err = none)
     (hother : m ≠ mtAttached ∨ valid ver = false) :
-    hb' ≠ hb ∧ (P.hash hb' ≠ P.hash hb ∨ (hb' ≠ hb ∧ P.hash hb' = P.hash hb)) := by
+    hb' ≠ hb := by
   rw [sig_verifyBytes_of_read hread] at hopen
   cases hopen
   obtain ⟨_, hv, ht⟩ := ver_gate_any P valid kr hb' h' ps hacc
-  apply ne_hash_or_collision
   intro e
   subst e
   have htag := frontSigHeader_tag hb' m ver hhon h' (readSig_header msg' hb' h' ps hread)
@@ -451,14 +450,13 @@ theorem detached_no_transplant_bytes (P : Prims) (valid : Validator) (kr : Keyri
     (hread : Front.readDetached sigMsg' = .ok (.ok hb' h', sr)) (msg k : Bytes)
     (hopen : Sign.verifyDetachedBytes P valid kr sigMsg' msg = .ok (.ok k))
     (hother : m ≠ mtDetached ∨ valid ver = false) :
-    hb' ≠ hb ∧ (P.hash hb' ≠ P.hash hb ∨ (hb' ≠ hb ∧ P.hash hb' = P.hash hb)) := by
+    hb' ≠ hb := by
   rw [sig_verifyDetachedBytes_of_read hread] at hopen
   have hacc : Sign.verifyDetached P valid kr (.ok hb' h') sr msg = .ok k := by
     injection hopen
   obtain ⟨hb2, h2, sg, hhr, _, _, hv, ht, _⟩ := detached_sound P valid kr _ sr msg k hacc
   injection hhr with e1 e2
   subst e1 e2
-  apply ne_hash_or_collision
   intro e
   subst e
   have htag := frontSigHeader_tag hb' m ver hhon h' (readDetached_header sigMsg' hb' h' sr hread)
@@ -466,6 +464,87 @@ theorem detached_no_transplant_bytes (P : Prims) (valid : Validator) (kr : Keyri
   rcases hother with ho | ho
   · exact ho (e1.symm.trans ht)
   · rw [← e2, hv] at ho; cases ho
+
+/-! ### behind a foreign header nothing is accepted -/
+
+theorem decrypt_foreign_header_refused (P : Prims) (valid : Validator) (kr : Keyring)
+    (hb : Bytes) (m : Int) (ver : Version) (hhon : CanonHeaderBytes hb m ver)
+    (msg' : Bytes) (h' : EncHeader) (ps : PStream EncBlock)
+    (hread : Front.readEnc msg' = .ok (.ok hb h', ps)) (hother : m ≠ mtEncryption ∨ valid ver = false) :
+    ∃ e, Decrypt.openBytes P valid kr msg' = .ok ⟨none, [], some e, []⟩ ∧
+      (e = .notASaltpackMessage ∨ e = .wrongMessageType ∨ e = .badVersion) := by
+  have htag := frontEncHeader_tag hb m ver hhon h' (readEnc_header msg' hb h' ps hread)
+  injection htag with e1 e2
+  obtain ⟨a, b, c⟩ := dec_validate_error valid h'
+  rw [dec_openBytes_of_read hread]
+  by_cases hf : h'.formatName = Gen.c_sp_FormatName
+  · by_cases ht : h'.typ = mtEncryption
+    · rcases hother with ho | ho
+      · exact (ho (e1.symm.trans ht)).elim
+      · exact ⟨_, by rw [dec_openStream_refused P valid kr hb h' ps _ (c hf ht (e2 ▸ ho))], Or.inr (Or.inr rfl)⟩
+    · exact ⟨_, by rw [dec_openStream_refused P valid kr hb h' ps _ (b hf ht)], Or.inr (Or.inl rfl)⟩
+  · exact ⟨_, by rw [dec_openStream_refused P valid kr hb h' ps _ (a hf)], Or.inl rfl⟩
+
+theorem signcrypt_foreign_header_refused (P : Prims) (kr : Keyring) (res : Signcrypt.Resolver)
+    (hb : Bytes) (m : Int) (ver : Version) (hhon : CanonHeaderBytes hb m ver)
+    (msg' : Bytes) (h' : EncHeader) (ps : PStream SigncryptBlock)
+    (hread : Front.readSigncrypt msg' = .ok (.ok hb h', ps)) (hother : m ≠ mtSigncryption ∨ ver.major ≠ 2) :
+    ∃ e, Signcrypt.openBytes P kr res msg' = .ok ⟨none, [], some e, []⟩ ∧
+      (e = .notASaltpackMessage ∨ e = .wrongMessageType ∨ e = .badVersion) := by
+  have htag := frontEncHeader_tag hb m ver hhon h' (readSigncrypt_header msg' hb h' ps hread)
+  injection htag with e1 e2
+  obtain ⟨a, b, c⟩ := sc_validate_error h'
+  rw [sc_openBytes_of_read hread]
+  by_cases hf : h'.formatName = Gen.c_sp_FormatName
+  · by_cases ht : h'.typ = mtSigncryption
+    · rcases hother with ho | ho
+      · exact (ho (e1.symm.trans ht)).elim
+      · exact ⟨_, by rw [sc_openStream_refused P kr res hb h' ps _ (c hf ht (e2 ▸ ho))], Or.inr (Or.inr rfl)⟩
+    · exact ⟨_, by rw [sc_openStream_refused P kr res hb h' ps _ (b hf ht)], Or.inr (Or.inl rfl)⟩
+  · exact ⟨_, by rw [sc_openStream_refused P kr res hb h' ps _ (a hf)], Or.inl rfl⟩
+
+theorem verify_foreign_header_refused (P : Prims) (valid : Validator) (kr : Keyring)
+    (hb : Bytes) (m : Int) (ver : Version) (hhon : CanonHeaderBytes hb m ver)
+    (msg' : Bytes) (h' : SigHeader) (ps : PStream SigBlock)
+    (hread : Front.readSig msg' = .ok (.ok hb h', ps)) (hother : m ≠ mtAttached ∨ valid ver = false) :
+    ∃ e, Sign.verifyBytes P valid kr msg' = .ok ⟨none, [], some e⟩ ∧
+      (e = .notASaltpackMessage ∨ e = .wrongMessageType ∨ e = .badVersion) := by
+  have htag := frontSigHeader_tag hb m ver hhon h' (readSig_header msg' hb h' ps hread)
+  injection htag with e1 e2
+  obtain ⟨a, b, c⟩ := sig_validate_error valid h' mtAttached
+  rw [sig_verifyBytes_of_read hread]
+  by_cases hf : h'.formatName = Gen.c_sp_FormatName
+  · cases hv : valid h'.version with
+    | false => exact ⟨_, by rw [ver_verifyStream_refused P valid kr hb h' ps _ (b hf hv)], Or.inr (Or.inr rfl)⟩
+    | true =>
+      by_cases ht : h'.typ = mtAttached
+      · rcases hother with ho | ho
+        · exact (ho (e1.symm.trans ht)).elim
+        · rw [← e2, hv] at ho; cases ho
+      · exact ⟨_, by rw [ver_verifyStream_refused P valid kr hb h' ps _ (c hf hv ht)], Or.inr (Or.inl rfl)⟩
+  · exact ⟨_, by rw [ver_verifyStream_refused P valid kr hb h' ps _ (a hf)], Or.inl rfl⟩
+
+theorem detached_foreign_header_refused (P : Prims) (valid : Validator) (kr : Keyring)
+    (hb : Bytes) (m : Int) (ver : Version) (hhon : CanonHeaderBytes hb m ver)
+    (sigMsg' : Bytes) (h' : SigHeader) (sr : Sign.SigRead)
+    (hread : Front.readDetached sigMsg' = .ok (.ok hb h', sr)) (msg : Bytes)
+    (hother : m ≠ mtDetached ∨ valid ver = false) :
+    ∃ e, Sign.verifyDetachedBytes P valid kr sigMsg' msg = .ok (.error e) ∧
+      (e = .notASaltpackMessage ∨ e = .wrongMessageType ∨ e = .badVersion) := by
+  have htag := frontSigHeader_tag hb m ver hhon h' (readDetached_header sigMsg' hb h' sr hread)
+  injection htag with e1 e2
+  obtain ⟨a, b, c⟩ := sig_validate_error valid h' mtDetached
+  rw [sig_verifyDetachedBytes_of_read hread]
+  by_cases hf : h'.formatName = Gen.c_sp_FormatName
+  · cases hv : valid h'.version with
+    | false => exact ⟨_, by rw [det_verifyDetached_refused P valid kr hb h' sr msg _ (b hf hv)], Or.inr (Or.inr rfl)⟩
+    | true =>
+      by_cases ht : h'.typ = mtDetached
+      · rcases hother with ho | ho
+        · exact (ho (e1.symm.trans ht)).elim
+        · rw [← e2, hv] at ho; cases ho
+      · exact ⟨_, by rw [det_verifyDetached_refused P valid kr hb h' sr msg _ (c hf hv ht)], Or.inr (Or.inl rfl)⟩
+  · exact ⟨_, by rw [det_verifyDetached_refused P valid kr hb h' sr msg _ (a hf)], Or.inl rfl⟩
 
 /-! ### the gates themselves, for every byte string -/
 
